@@ -120,6 +120,9 @@ def gen_values(ck: Check):
 
 def run(ck: Check):
     dex, cm = _real()
+    # tie by translation: regenerate AgVerif.Gen.PyLeb from the five functions of the tree under test
+    # (gen/py2lean.py); Props/C03.lean proves gen_*_eq: generated definition = hand model, for every input
+    ck.run_gen("py2lean_c03")
     if ck.pins_changed(PINS):          # a modelled function changed: run the thorough sizes even in the quick tier
         ck.quick = False
     ck.prove(exes=["drv_C03"])
@@ -209,6 +212,9 @@ def run(ck: Check):
     buffered_stream(ck, dex, cm, drv)
     ck.assumptions.append("struct.pack/unpack of one byte is modelled as list head/cons; "
                           "Python int & and >> on negatives are modelled as floor mod/div (checked by the correspondence)")
+    ck.assumptions.append("tie by translation: gen/py2lean.py reads the Python subset it documents correctly (int = Int, "
+                          "& | ^ << >> as in Model/PyInt.lean, checked there against a CPython-computed grid; one exception "
+                          "value `none`; get_byte = next byte of the stream); sys.maxsize = 2**63-1")
 
 
 def buffered_stream(ck: Check, dex, cm, drv):
